@@ -91,8 +91,9 @@ Proof. exact overflow_witness_facts. Qed.
 
 Theorem C18_doubling_chain_refuted :
   compute_layouts true doubling_witness = Fail EOverflow /\
-  (exists offs m, compute_layouts false doubling_witness = Ok (offs, m) /\ nth_error offs 0 = Some (Some [0; 0])) /\
-  c_struct 40 doubling_witness [TStruct 29; TPrim PU8] = Some ([0; 4294967296], 4294967304, 8).
+  bind (compute_layouts false doubling_witness)
+       (fun r => Ok (nth_error (fst r) 0, rlookup (snd r) 28, rlookup (snd r) 29))
+  = Ok (Some (Some [0; 0]), Some (2147483648, 8), Some (0, 8)).
 Proof. exact doubling_witness_facts. Qed.
 
 (* non-vacuity: nested structs, array stride, tail padding, declared dependents-first *)
